@@ -2,8 +2,11 @@
 
 1. TLC model-checks spec/Aggregator.tla (all interleavings of points, clock advances and ticks for
    small constants; NoDoubleEmit, ClosedStaysClosed, AscendingWithinFlush as invariants,
-   ExactlyOnceContribution as a step property); six named deviations must each be rejected by the
-   property they are aimed at.
+   ExactlyOnceContribution as a step property); seven named deviations must each be rejected by the
+   property they are aimed at.  The "expanded output name" that identifies a bucket is computed by
+   spec/AggregatorNames.tla: leftmost-first regex match (spec/Matcher.tla, instanced) + Go
+   regexp.Expand template semantics (${n}/$n, n = 0 the whole match, unknown group -> empty, $$ -> $),
+   for regexes with and WITHOUT capturing groups (deviation no_group_template_verbatim).
 2. R: TLC (-simulate, AggregatorGen.tla) generates behaviours together with what must be on `out`
    after every tick (exact rationals for all ten functions) and the TooOld delta of every step; the
    Go driver (harness/agg, TestReplay) steps them through the real aggregator.NewMocked (injected
@@ -23,14 +26,14 @@ def run(ctx):
     agglib.mc_nonvacuity(ctx)
 
     # ---- R: replay of TLC behaviours on the real aggregator
-    behs = agglib.generate(ctx)
-    recs, plan = agglib.make_runs(ctx, behs)
+    behs, fmts = agglib.generate(ctx)
+    recs, plan = agglib.make_runs(ctx, behs, fmts)
     outs = agglib.run_replay(ctx, recs)
     st = agglib.compare_replay(ctx, behs, plan, outs)
     agglib.selftest_replay(ctx, behs, plan, outs)
 
     # ---- T: trace validation behind a real Table
-    tstats = agglib.trace_variant(ctx)
+    tstats = agglib.trace_variant(ctx, fmts)
 
     cov = ctx.cov
     cov["evaluations"] = st["lines"] + st["too_checks"]
@@ -38,13 +41,15 @@ def run(ctx):
     cov["replay"] = st
     cov["trace_variant"] = tstats
     cov["rule"] = ("evaluations = output lines compared with TLC's exact expectation + TooOld deltas compared; "
-                   "distinct_nontrivial = distinct (interval, wait, format, function, non-empty expected flush content) "
+                   "distinct_nontrivial = distinct (interval, wait, rule, function, non-empty expected flush content incl. "
+                   "expanded output names) "
                    "tuples seen in replayed behaviours; behaviours come from TLC -simulate of AggregatorGen.tla "
                    "(every step also checked by TLC against the invariants and the step property)")
     cov["trusted_base"] = ["TLC", "harness/agg driver (records only)",
                            "checks/agglib.py: parsing of '<name> <float> <ts>' lines and big-rational comparison of a "
                            "printed float with TLC's exact <<num,den>> (|diff| <= 1e-6; stdev through its square)",
-                           "name/regex/outFmt concretisation table of agglib.FORMATS (mirrors KeyOf in Aggregator.tla)"]
+                           "spec/Matcher.tla Render / AggregatorNames.tla NmRenderTmpl: the RE2 / template text of the "
+                           "abstract regex and format handed to the real code (all strings come from TLC)"]
     ctx.assumptions += ["model time is offset by a base (1.5e9, multiple of every interval) so the code's unsigned "
                         "`now - wait` never wraps; clock non-decreasing; a tick value never exceeds the clock",
                         "R: one message at a time, Snapshot() round-trip as barrier after every step",
